@@ -30,6 +30,8 @@ from worlds import w1_engine as w1               # noqa: E402
 from worlds.w1_engine import G, _copy            # noqa: E402
 
 from insights.core import dr, plugins, filters, spec_factory   # noqa: E402
+from simkit.iomon import Monitor, Fault          # noqa: E402
+import errno          # noqa: E402
 from insights.core.context import HostContext, ExecutionContext, HostArchiveContext   # noqa: E402
 from insights.core.exceptions import NoFilterException, ContentException, CalledProcessError   # noqa: E402
 from insights.core.spec_factory import SpecSet, TextFileProvider, CommandOutputProvider  # noqa: E402
@@ -207,8 +209,17 @@ def gen_content(st, case):
         conc = {"seed": rp.getrandbits(32), "allowlist": other, "rotate": rp.randrange(max(1, n)),
                 "policy": ({"kind": "walk", "p": rp.choice([0.05, 0.1, 0.3])} if rp.random() < 0.7 else
                            {"kind": "pct", "depth": rp.choice([1, 2, 3]), "horizon": rp.choice([50, 200, 600])})}
-    return {"lines": lines, "trailing_newline": rp.random() < 0.85, "redact": redact, "concurrent": conc,
-            "keep_rc": rp.random() < 0.4}          # the command spec is declared with keep_rc=True (as ls_la_filtered is)
+    out = {"lines": lines, "trailing_newline": rp.random() < 0.85, "redact": redact, "concurrent": conc,
+           "keep_rc": rp.random() < 0.4}          # the command spec is declared with keep_rc=True (as ls_la_filtered is)
+    if rf.random() < 0.1:
+        # a fault inside the host pre-filter: the grep sub-process cannot be started (E2BIG for a long filter list, no
+        # memory, no more processes, no grep installed), or the file is rotated away between the construction of the
+        # provider (validate) and the loading of its content
+        if rf.random() < 0.5:
+            out["prefilter_fault"] = {"kind": "popen", "errno": rf.choice(["E2BIG", "ENOMEM", "EAGAIN", "ENOENT", "EACCES"]), "nth": rf.choice([1, 1, 2])}
+        else:
+            out["prefilter_fault"] = {"kind": "vanish"}
+    return out
 
 
 # ------------------------------------------------------------------------------------------------
@@ -448,8 +459,9 @@ def assertable(world, key):
 # ------------------------------------------------------------------------------------------------
 # content laws
 # ------------------------------------------------------------------------------------------------
-def check_laws(path, lines, out, budgets, viols, respects_budget):
-    """lines: original lines; out: produced lines; budgets: {filter: budget}."""
+def check_laws(path, lines, out, budgets, viols, respects_budget, faulted=False):
+    """lines: original lines; out: produced lines; budgets: {filter: budget}.  faulted: an injected fault hit the
+    pre-filter -- the content may then be incomplete or absent, never wrong: only laws (a) and (b) are demanded."""
     fl = sorted(budgets)
     # (a) order-preserving sub-sequence
     pos = []
@@ -474,6 +486,8 @@ def check_laws(path, lines, out, budgets, viols, respects_budget):
         if lines[i] and not any(f in lines[i] for f in fl):
             viols.append(V("C07.content", "%s:kept-line-without-filter" % path, "%s: kept line %r contains none of %r" % (path, lines[i], fl)))
             break
+    if faulted:
+        return
     # (c) the last line matching each filter is kept
     for f in fl:
         last = [i for i, l in enumerate(lines) if f in l]
@@ -545,10 +559,33 @@ def run_content(case, world, viols, stats):
             sfx = ":lone-cr-in-line"
         # ---------------- P1f host pre-filter of a file (real grep through the real provider)
         hc = HostContext(root=root)
+        pf = content.get("prefilter_fault") if exp else None
         try:
             prov = TextFileProvider(rel, root=root, ds=ds, ctx=hc)
             if not exp:
                 viols.append(V("C07.content", "host-file:collected-without-filters", "filterable spec with no filter yielded a provider under a host context"))
+            elif pf:
+                # fault-injecting configuration (kept apart from the fault-free one): the spec may fail, it must not lie
+                fpath = os.path.join(root, rel)
+                mon = Monitor(faults=[Fault("popen", 1, getattr(errno, pf["errno"]))] if pf["kind"] == "popen" else [])
+                if pf["kind"] == "vanish":
+                    os.rename(fpath, fpath + ".1")
+                try:
+                    with mon:
+                        try:
+                            out = prov.content
+                        except (ContentException, CalledProcessError, EnvironmentError):
+                            out = None
+                finally:
+                    if pf["kind"] == "vanish":
+                        os.rename(fpath + ".1", fpath)
+                if pf["kind"] == "vanish" or mon.fired:
+                    k = "prefilter_" + (pf["kind"] if pf["kind"] == "vanish" else "popen_" + pf["errno"])
+                    stats["faults_fired"][k] = stats["faults_fired"].get(k, 0) + 1
+                if out is None:
+                    stats["probes"]["host_file_not_collected_after_prefilter_fault"] = stats["probes"].get("host_file_not_collected_after_prefilter_fault", 0) + 1
+                else:
+                    check_laws("host-file:prefilter-%s%s" % (pf["kind"], sfx), orig, out, budgets, viols, respects_budget=False, faulted=True)
             else:
                 try:
                     out = prov.content
@@ -565,11 +602,21 @@ def run_content(case, world, viols, stats):
         if exp:
             try:
                 cp = CommandOutputProvider("/bin/cat %s" % os.path.join(root, rel), hc, ds=ds, keep_rc=bool(content.get("keep_rc")))
+                cfault = pf is not None and pf["kind"] == "popen"
+                mon = Monitor(faults=[Fault("popen", pf["nth"], getattr(errno, pf["errno"]))] if cfault else [])
                 try:
-                    out = cp.content
+                    with mon:
+                        out = cp.content
                 except (ContentException, CalledProcessError):
                     out = []          # "no line matched" (grep exit 1) and a failing pipeline both yield nothing
-                check_laws("host-command" + sfx, orig, out, budgets, viols, respects_budget=False)
+                except EnvironmentError:
+                    if not mon.fired:
+                        raise
+                    out = []
+                if mon.fired:
+                    stats["faults_fired"]["command_pipeline_popen_" + pf["errno"]] = stats["faults_fired"].get("command_pipeline_popen_" + pf["errno"], 0) + 1
+                check_laws("host-command" + (":prefilter-popen" if mon.fired else "") + sfx, orig, out, budgets, viols, respects_budget=False,
+                           faulted=bool(mon.fired))
                 stats["probes"]["path_host_command_grep"] = stats["probes"].get("path_host_command_grep", 0) + 1
             except NoFilterException:
                 viols.append(V("C07.content", "host-command:refused-although-filters-exist", "NoFilterException although filters exist"))
